@@ -72,9 +72,31 @@ def gen_inner_receiver(rng):
     return {"prog": "recv", "ops": ops, "activation_inv": "C13.activation"}
 
 
+def gen_two_receivers(rng):
+    """Two object-bound methods in one call path: k1.cross > k2.meth > x fires for calls of meth on k2
+    made under cross called on k1 (cross calls meth on the instance k2), and for nothing else."""
+    outer = rng.choice(["k1", "k2", "s1"])
+    inner = rng.choice(["k2", "k2", "k1"])
+    head = {"fn": "K.cross", "caps": [], "sibs": [], "recv": outer, "recv_cls": "Sub" if outer == "s1" else "K",
+            "recv_param": "self", "recv_path": f"{outer}.cross"}
+    lv = {"fn": "K.meth", "caps": [], "sibs": [], "recv": inner, "recv_cls": "K", "recv_param": "self",
+          "recv_path": f"{inner}.meth"}
+    sel = {"levels": [head, lv], "focus": {"var": "x", "as": "foc"}}
+    # (both levels report their receiver under the same name: which one the event shows is not judged)
+    ops = [{"op": "mk", "id": "p0", "sels": [sel], "inv": "C13.receiver", "style": 0, "count_only": True},
+           {"op": "enter", "id": "p0"}]
+    for _ in range(rng.randint(3, 7)):
+        who = rng.choice(["k1", "k2", "s1"])
+        ops.append({"op": "call", "fn": f"{who}.{rng.choice(['cross', 'cross', 'meth'])}", "nargs": 1, "tape": [], "faults": {}})
+    ops.append({"op": "exit", "id": "p0"})
+    return {"prog": "recv", "ops": ops, "activation_inv": "C13.activation"}
+
+
 def gen(rng, tier, quarantine=()):
     if "no-failing-subscriber" not in quarantine and rng.random() < 0.06:
         return gen_failing_nested(rng)
+    if "single-bound-level" not in quarantine and rng.random() < 0.05:
+        return gen_two_receivers(rng)
     if "no-inner-receiver" not in quarantine and rng.random() < 0.06:
         return gen_inner_receiver(rng)
     fams = [f for f in FAM if f"no:{f}" not in quarantine]
